@@ -398,11 +398,19 @@ def hunts(quick, focus, timeout):
             cfg['repro'] = False
             out.append(cfg)
     if 'RPSO' in opts:
-        for i in range(9 if quick else 60):
-            c = {'objective': rnd.choice(OBJECTIVES), 'ret': ['pyfloat', 'npscalar'][i % 2], 'box': ['wide', 'wide', 'mid'][i % 3], 'agents': [2, 5][i % 2],
+        for i in range(6 if quick else 40):
+            c = {'objective': rnd.choice(OBJECTIVES), 'ret': ['pyfloat', 'npscalar'][i % 2], 'box': 'wide', 'agents': [2, 5][i % 2],
                  'n_variables': [1, 2][(i // 2) % 2], 'n_dimensions': 1, 'n_iterations': [3, 10][(i // 2) % 2], 'draws': ['seeded', 'alt', 'high'][i % 3],
                  'hp': 'default', 'store_best_only': False, 'hook': 'observe'}
             cfg = make('RPSO', 'search', c, 8500 + i, timeout)
+            cfg['repro'] = False
+            out.append(cfg)
+        # boxes thousands wide -- far below the light-speed constant, so the relativistic factor must stay finite
+        for i in range(3 if quick else 12):
+            c = {'objective': ['sphere', 'shifted', 'linear'][i % 3], 'ret': 'pyfloat', 'box': 'mid', 'agents': [5, 8, 3][i % 3],
+                 'n_variables': [2, 1, 3][i % 3], 'n_dimensions': 1, 'n_iterations': [10, 6, 12][i % 3], 'draws': 'seeded',
+                 'hp': 'default', 'store_best_only': False, 'hook': 'observe'}
+            cfg = make('RPSO', 'search', c, 8560 + i, timeout)
             cfg['repro'] = False
             out.append(cfg)
     return out
